@@ -108,7 +108,13 @@ C07i == { Scn("C07a", F(<<L("a", "T2", "")>>, <<>>), ins, cs) :
 C07hb == { Scn("C07hb", F(<<L("a", "T2", "")>>, <<>>), ins, cs) :
             ins \in PermSeqs({L("a", "T1", "j"), L("b", "T1", "")}),
             cs \in PermSeqs({F(<<L("", "T1", "")>>, <<L("", "T2", "")>>), F(<<L("a", "T1", "")>>, <<L("", "T4", "")>>)}) }
-C07Family == C07a \cup C07b \cup C07c \cup C07d \cup C07e \cup C07f \cup C07g \cup C07h \cup C07hb \cup C07i
+C07be == { Scn("C07b", F(<<L("a", "T2", "")>>, <<>>), ins, cs) :
+            ins \in UNION {PermSeqs(S) : S \in {{L("a", "T1", "j"), L("b", "T1", "")}, {L("a", "T1", "j")}}},
+            cs \in PermSeqs({F(<<L("a", "T1", "")>>, <<L("", "T2", "")>>), F(<<L("", "T1", "")>>, <<L("", "T2", "")>>)}) }
+C07dp == { Scn("C07c", F(tp, <<>>), ins, <<FP(<<L("", "T1", "")>>, <<L("", "T2", "")>>)>>) :
+            tp \in {<<L("a", "T2", ""), L("b", "T2", "")>>, <<L("a", "T2", ""), L("b", "T2", ""), L("c", "T2", "")>>},
+            ins \in PermSeqs({L("a", "T1", ""), L("b", "T1", ""), L("c", "T1", "")}) }
+C07Family == C07be \cup C07dp \cup C07a \cup C07b \cup C07c \cup C07d \cup C07e \cup C07f \cup C07g \cup C07h \cup C07hb \cup C07i
 
 -----------------------------------------------------------------------------
 \* single-input converter digraphs over three types: every subset of the six type-only converters
@@ -192,8 +198,13 @@ StaleFamily == { Scn("stale", F(tp, <<>>), ins, cs) :
                    tp \in {<<L("", "T1", "s"), L("x", "T2", "")>>, <<L("x", "T2", ""), L("", "T1", "s")>>},
                    ins \in {<<L("", "T1", "s"), L("", "T3", "")>>, <<L("", "T3", ""), L("", "T1", "s")>>},
                    cs \in PermSeqs({F(<<L("", "T3", ""), L("", "T1", "t")>>, <<L("x", "T2", "")>>), F(<<L("", "T3", ""), L("", "T4", "")>>, <<L("", "T1", "t")>>)}) }
+\* a converter whose Go signature is the target's own (a function vertex is identified by its type: the two collapse)
+SameSigFamily == { Scn("samesig", f, ins, <<f>> \o more) :
+                     f \in {FP(<<L("", "T1", "")>>, <<L("", "T2", "")>>), F(<<L("a", "T1", "")>>, <<L("", "T2", "")>>)},
+                     ins \in {<<L("", "T1", "")>>, <<L("a", "T1", "")>>, <<L("", "T3", "")>>, <<L("", "T1", ""), L("", "T3", "")>>},
+                     more \in {<<>>, <<FP(<<L("", "T3", "")>>, <<L("", "T1", "")>>)>>} }
 MatchFamily == { Scn("match", F(<<rq>>, <<>>), <<pv>>, <<>>) : rq \in MatchU, pv \in {x \in MatchU : x.type = "T1"} }
-               \cup MatchFamily2 \cup MatchFamily3 \cup StaleFamily
+               \cup MatchFamily2 \cup MatchFamily3 \cup StaleFamily \cup SameSigFamily
                \cup { Scn("match", F(<<rq>>, <<>>), <<>>, <<F(<<>>, <<pv>>)>>) : rq \in MatchU, pv \in MatchU }
                \cup { Scn("match", F(<<rq>>, <<>>), <<L("", "T2", "")>>, <<F(<<L("", "T2", "")>>, <<pv>>)>>) : rq \in MatchU, pv \in MatchU }
 
@@ -235,7 +246,8 @@ C10Family == { C10Scn(t, <<L("", pv, "")>>, <<>>) : t \in C10Types, pv \in {"T1"
 \* C16: option processing.  Exact-key targets; every arrangement of the supplied values in which keys
 \* repeat (the last occurrence must win), every default/call split, nil values, a nil option.
 \* (name casing is varied by the harness at the API and in the struct tags)
-C16Params == {L("a", "T1", ""), L("", "T2", ""), L("b", "T4", "s"), L("", "T3", "s")}
+\* ("xuml" stands for a name with a non-ASCII letter: the harness spells it with a u-umlaut, in both cases)
+C16Params == {L("a", "T1", ""), L("", "T2", ""), L("b", "T4", "s"), L("", "T3", "s"), L("xuml", "T1", "")}
 C16Targets == {<<p>> : p \in C16Params} \cup {<<p, q>> : p \in {L("a", "T1", ""), L("b", "T4", "s")}, q \in {L("", "T2", ""), L("", "T3", "s")}}
 \* arrangements of a multiset given as a sequence (positions are distinct, so every order appears)
 Arrangements(ms) == {[i \in DOMAIN ms |-> ms[p[i]]] : p \in PermSeqs(DOMAIN ms)}
@@ -248,12 +260,19 @@ C16Sub == { [Scn("C16", F(<<L("b", "T4", "s")>>, <<>>), ins, <<>>) EXCEPT !.ndef
 \* a typed nil pointer as the last value for a key (see Contract!C16)
 C16Nil == UNION { { [Scn("C16", F(<<p>>, <<>>), ins, <<>>) EXCEPT !.ndef = nd, !.bad = "typednil"] :
                       ins \in {<<>>, <<p>>, <<p, p>>}, nd \in 0..2 } : p \in {L("a", "P1", ""), L("", "P1", ""), L("a", "P1", "s"), L("", "P1", "s")} }
-C16Family == C16Sub \cup C16Nil \cup UNION { { [Scn("C16", F(t, <<>>), ins, <<>>) EXCEPT !.ndef = nd, !.bad = bad] :
+\* a target without parameters: its options are processed all the same (a nil option is an error)
+C16NoParam == { [Scn("C16", F(<<>>, <<>>), ins, <<>>) EXCEPT !.bad = bad] : ins \in {<<>>, <<L("a", "T1", "")>>}, bad \in {"", "nilarg", "nilvalue"} }
+\* option values reused by a later call: a value option is an object of its own, using it together with another one (same
+\* Go type, other subtype) must not change what it carries (family "C16reuse": the second call gets the FIRST option only)
+C16Reuse == { Scn("C16reuse", F(<<p>>, <<>>), ins, <<>>) :
+                p \in {L("", "T3", "t"), L("b", "T3", "t")},
+                ins \in {<<L("", "T3", "s"), L("", "T3", "t")>>, <<L("b", "T3", "s"), L("b", "T3", "t")>>, <<L("", "T3", "s"), L("b", "T3", "t")>>} }
+C16Family == C16Sub \cup C16Nil \cup C16NoParam \cup C16Reuse \cup UNION { { [Scn("C16", F(t, <<>>), ins, <<>>) EXCEPT !.ndef = nd, !.bad = bad] :
                          ins \in UNION {Arrangements(ms) : ms \in C16Multisets(t)},
                          nd \in 0..3, bad \in {"", "nilvalue", "nilarg"} } : t \in C16Targets }
 
 -----------------------------------------------------------------------------
-FamilyScenarios == CASE Family = "C03" -> C03Family
+FamilyScenarios == CASE Family = "C03" -> C03Family \cup SameSigFamily
                      [] Family = "C07" -> C07Family
                      [] Family = "C05" -> C05Family \cup CycleFamily \cup MatchFamily \cup XFamily
                      [] Family = "C08" -> C08Family
